@@ -541,11 +541,11 @@ pub fn run(args: &Args) {
          a body; distinct by (history, crash point).",
         5,
     );
-    let histories = args.n(3, 120);
-    let sigkills = args.n(8, 600);
+    let histories = args.n(12, 150);
+    let sigkills = args.n(30, 800);
     // Work list: (case id, crash point, sigkill)
     let mut work: Vec<(u64, Option<usize>, bool, Option<usize>)> = Vec::new();
-    let hook_points = args.n(4, 12) as usize;
+    let hook_points = args.n(6, 12) as usize;
     for h in 0..histories {
         let plan = gen_plan(&mut Rng::fork(args.seed, h));
         for k in 0..plan.steps.len() {
